@@ -239,6 +239,10 @@ def do_derive(sim, rec):
         call = lambda: src.sut << other.sut
         alts = [(model_lshift(m, other.model), None)]
     elif how == "complement":
+        import math
+        top = max([len(v) for v in m.edges.values()] or [0])
+        if sum(math.comb(len(m.nodes), k) for k in range(1, top + 1)) > 4000:
+            return None  # bound of the exploration: the complement enumerates all these node sets
         call = lambda: xgi.complement(src.sut)
         alts = [(model_complement(m), M.Exp(edges_order_free=True))]
         if not m.edges:
